@@ -11,10 +11,11 @@ NATIVE_NOTE = "Trusts: rustc; the Linux kernel's mmap/mprotect semantics and /pr
 PLAN = {
     "C01": {
         "selftest": True,
-        "packages": ["vsim", "vnative"],
+        "packages": ["vsim", "vnative", "vsim-noassert"],
         "engines": [
             {"name": "n-place", "argv": [VNATIVE, "place", "--property", "C01"]},
             {"name": "s1-amd64", "argv": [VSIM, "amd64", "--property", "C01", "--modes", "fn,bool"]},
+            {"name": "s1-amd64-noassert", "profile": "noassert", "argv": [VSIM, "amd64", "--property", "C01", "--modes", "fn,bool"]},
             {"name": "fuzz-encoders", "thorough_only": True, "argv": FUZZ + ["--property", "C01"]},
         ],
     },
@@ -125,18 +126,20 @@ PLAN = {
     },
     "C15": {
         "selftest": True,
-        "packages": ["vsim"],
+        "packages": ["vsim", "vsim-noassert"],
         "engines": [
             {"name": "s1-arm64", "argv": [VSIM, "arm64", "--property", "C15", "--modes", "fn,bool"]},
+            {"name": "s1-arm64-noassert", "profile": "noassert", "argv": [VSIM, "arm64", "--property", "C15", "--modes", "fn,bool"]},
             {"name": "s2", "argv": [VSIM, "s2", "--property", "C15", "--variants", "arm64"]},
             {"name": "fuzz-encoders", "thorough_only": True, "argv": FUZZ + ["--property", "C15"]},
         ],
     },
     "C16": {
         "selftest": True,
-        "packages": ["vsim"],
+        "packages": ["vsim", "vsim-noassert"],
         "engines": [
             {"name": "s1-arm", "argv": [VSIM, "arm", "--property", "C16", "--modes", "fn,bool"]},
+            {"name": "s1-arm-noassert", "profile": "noassert", "argv": [VSIM, "arm", "--property", "C16", "--modes", "fn,bool"]},
             {"name": "s2", "argv": [VSIM, "s2", "--property", "C16", "--variants", "arm"]},
             {"name": "fuzz-encoders", "thorough_only": True, "argv": FUZZ + ["--property", "C16"]},
         ],
